@@ -28,8 +28,8 @@ MANIFEST = dict(
          "only commutativity of the machine addition resp. x-y = -(y-x): if neither operand is zero, the units are "
          "different and differ in size, a+b and b+a are the same result — same (smaller) unit, same magnitude bit "
          "for bit; with exactly one zero operand both orders return the other operand (C12_bitwise, C12_one_zero, "
-         "C12_sub_bitwise). All closed under the global context. Not proved: that three-operand sums land in the "
-         "smallest unit (C12_min_unit_full, correspondence only). The two IEEE laws are hypotheses of the "
+         "C12_sub_bitwise); a three-operand sum without zero operands or zero partial sum is expressed in a unit not "
+         "larger than any operand's unit (C12_min_unit). All closed under the global context. The two IEEE laws are hypotheses of the "
          "structural theorems (trusted facts about f64).",
     design_ref="DESIGN.md §6 C12; design/qty.md",
     note="Trusted: Coq kernel + vm_compute; Qty/Model.v hand port of Add/Sub/smaller_unit/convert_to; f64 + is "
@@ -37,7 +37,7 @@ MANIFEST = dict(
     technique="Coq proof (exact level + structural for any number type) + exhaustive unit-pair correspondence",
 )
 
-THEOREMS = ["C12_den", "C12_den_sub", "C12_den3", "C12_bitwise", "C12_one_zero", "C12_sub_bitwise"]
+THEOREMS = ["C12_den", "C12_den_sub", "C12_den3", "C12_min_unit", "C12_bitwise", "C12_one_zero", "C12_sub_bitwise"]
 REL = 1e-12
 MAGS = [0.0, 1.0, -1.0, 2.5, -40.5, 1e-9, 3e7, 123456.789]
 
